@@ -280,6 +280,18 @@ def _taint(f, start):
                 if any(op_local(a) in carry for a in c.args) and c.dest[0] not in carry:
                     carry.add(c.dest[0])
                     changed = True
+            elif t['k'] == 'switch' and op_local(t['o']) in carry and i in f.reachable():
+                # control dependence: what is assigned on one side of a decision on a tainted value carries the decision
+                # (`if key < self.min { Below } else { Inside }` of a `position()` helper that was inlined)
+                outs = [x for x in [tg for _, tg in t['vals']] + [t['otherwise']] if f.blocks[x]['t']['k'] != 'unreachable']
+                if len(outs) >= 2:
+                    sets = [f.reach_from([x]) for x in outs]
+                    common = set.intersection(*sets)
+                    for x in set.union(*sets) - common:
+                        for st in f.blocks[x]['s']:
+                            if st['k'] == 'a' and not st['d'][1] and st['d'][0] not in carry and st['d'][0] != 0:
+                                carry.add(st['d'][0])
+                                changed = True
     return carry
 
 
@@ -331,6 +343,18 @@ def d7(ctx, rid):
                         if stale:
                             bad = c
                             break
+                if bad is None:
+                    # the stale value decides a branch inside the later critical section and that branch stores through the
+                    # guard (`match position { Below => self.min = key, .. }` of an inlined `extend(position, key)`)
+                    region = f.reach_from(f.after(c2.bb))
+                    for i in sorted(region):
+                        t = f.blocks[i]['t']
+                        if t['k'] != 'switch' or op_local(t['o']) is None or op_local(t['o']) not in t1 or op_local(t['o']) in g2:
+                            continue
+                        for x in f.reach_from([i]):
+                            for st in f.blocks[x]['s']:
+                                if st['k'] == 'a' and st['d'][1] and core.access_root(f, st['d'][0]) in g2:
+                                    bad = f.call_at(c2.bb)
                 key = 'no-stale-decision|%s|%s' % (prog.fns[f.id].root, '.'.join(n1))
                 if bad is not None:
                     nbad += 1
